@@ -213,6 +213,12 @@ struct checks {
     }
 
     // (3) scanline reader
+    static size_t scan_bits_per_pixel() {
+        typedef typename std::remove_reference<typename ScanImg::view_t::reference>::type SP;   // a proxy class for bit-aligned views
+        return bits_of((SP*)nullptr, typename gil::is_bit_aligned<SP>::type());
+    }
+    template <class SP> static size_t bits_of(SP*, std::false_type) { return sizeof(SP) * 8; }
+    template <class SP> static size_t bits_of(SP*, std::true_type) { return gil::pixel_bit_size<SP>::value; }
     void scanline() {
         Img A; if (!full(A)) return;
         vh::evals(1);
@@ -225,6 +231,13 @@ struct checks {
             auto reader = gil::make_scanline_reader(sf.path, Tag());
             typedef decltype(reader) reader_t;
             typedef typename ScanImg::view_t::x_iterator x_it;
+            // the rows must be wide enough to hold A's pixels in the scanline layout; otherwise the two ways of
+            // reading do not even deliver the same channels (and the bytes must not be interpreted)
+            size_t need = ((size_t)A.width() * scan_bits_per_pixel() + 7) / 8;
+            if ((size_t)reader._scanline_length < need) {
+                vh::viol(key("scanline-rowbytes"), vh::cat(f.name, ": scanline rows have ", (size_t)reader._scanline_length, " bytes, ", need, " needed for ", A.width(), " pixels of the type read_image delivers"));
+                return;
+            }
             auto it = reader.begin(); auto end = reader.end();
             for (; it != end; ++it, ++rows) {
                 if (rows >= A.height()) { ++rows; break; }
@@ -254,36 +267,38 @@ struct checks {
         }
         return n;
     }
-    void readview() {
+    // k = 0 whole image, 1..3 one fixed sub-rectangle class each; the geometry is fixed (keys and fatal
+    // reports must not depend on the seed), the seed only chooses the arena contents
+    static const char* readview_class(int k) {
+        static const char* n[] = { "whole", "xoff-toright-yoff-tobottom", "x0-shortw-y0-shorth", "xoff-shortw-yoff-shorth" };
+        return n[k];
+    }
+    void readview(int k) {
         Img A; if (!full(A)) return;
         vh::rng r = vh::case_rng();
         long W = A.width(), H = A.height();
-        // whole image, then three sub-rectangles
-        for (int k = 0; k < 4; ++k) {
-            long x0 = 0, y0 = 0, dx = W, dy = H;
-            // fixed rectangle classes (keys must not depend on the seed), seeded values inside the class
-            if (k == 1) { if (W < 2 || H < 2) continue; x0 = 1 + (long)r.below(W - 1); y0 = 1 + (long)r.below(H - 1); dx = W - x0; dy = H - y0; }
-            if (k == 2) { if (W < 2 || H < 2) continue; dx = 1 + (long)r.below(W - 1); dy = 1 + (long)r.below(H - 1); }
-            if (k == 3) { if (W < 3 || H < 3) continue; x0 = 1 + (long)r.below(W - 2); y0 = 1 + (long)r.below(H - 2); dx = 1 + (long)r.below(W - x0 - 1); dy = 1 + (long)r.below(H - y0 - 1); }
-            std::string rc = k == 0 ? "whole" : rect_class(W, H, x0, y0, dx, dy);
-            long ox = 1 + (long)r.below(9), oy = 1 + (long)r.below(3);
-            Img arena(dx + ox + 5, dy + oy + 2), pristine;
-            cio::fill_view(gil::view(arena), r.next(), 0);
-            pristine = arena;
-            vh::evals(1);
-            try {
-                std::stringstream ss(f.bytes, std::ios::in | std::ios::binary);
-                auto dst = gil::subimage_view(gil::view(arena), (int)ox, (int)oy, (int)dx, (int)dy);
-                if (k == 0) gil::read_view(ss, dst, Tag());
-                else gil::read_view(ss, dst, settings_t(gil::point_t(x0, y0), gil::point_t(dx, dy)));
-            } catch (std::exception const& e) { vh::viol(key("readview-exception", rc), vh::cat(f.name, ": ", e.what())); continue; }
-            cio::diff_t d = cio::compare_views(gil::subimage_view(gil::const_view(A), (int)x0, (int)y0, (int)dx, (int)dy),
-                                               gil::subimage_view(gil::const_view(arena), (int)ox, (int)oy, (int)dx, (int)dy));
-            if (d.any()) vh::viol(key("readview", rc), vh::cat(f.name, " rect (", x0, ",", y0, ")+", dx, "x", dy, ": ", d.str()));
-            long oc = outside_changes(arena, pristine, ox, oy, dx, dy);
-            if (oc) vh::viol(key("readview-wrote-outside", rc), vh::cat(f.name, " rect (", x0, ",", y0, ")+", dx, "x", dy, ": ", oc, " arena pixels outside the destination view changed"));
-        }
-        vh::distinct(4);
+        long x0 = 0, y0 = 0, dx = W, dy = H;
+        if (k == 1) { if (W < 2 || H < 2) return; x0 = std::max(1L, W / 3); y0 = std::max(1L, H / 3); dx = W - x0; dy = H - y0; }
+        if (k == 2) { if (W < 2 || H < 2) return; dx = (W + 1) / 2; dy = (H + 1) / 2; }
+        if (k == 3) { if (W < 3 || H < 3) return; x0 = std::max(1L, W / 4); y0 = std::max(1L, H / 4); dx = std::max(1L, (W - x0) / 2); dy = std::max(1L, (H - y0) / 2); }
+        std::string rc = readview_class(k);
+        long ox = 3, oy = 2;
+        Img arena(dx + ox + 5, dy + oy + 2), pristine;
+        cio::fill_view(gil::view(arena), r.next(), 0);
+        pristine = arena;
+        vh::evals(1);
+        vh::distinct(1);
+        try {
+            std::stringstream ss(f.bytes, std::ios::in | std::ios::binary);
+            auto dst = gil::subimage_view(gil::view(arena), (int)ox, (int)oy, (int)dx, (int)dy);
+            if (k == 0) gil::read_view(ss, dst, Tag());
+            else gil::read_view(ss, dst, settings_t(gil::point_t(x0, y0), gil::point_t(dx, dy)));
+        } catch (std::exception const& e) { vh::viol(key("readview-exception", rc), vh::cat(f.name, ": ", e.what())); return; }
+        cio::diff_t d = cio::compare_views(gil::subimage_view(gil::const_view(A), (int)x0, (int)y0, (int)dx, (int)dy),
+                                           gil::subimage_view(gil::const_view(arena), (int)ox, (int)oy, (int)dx, (int)dy));
+        if (d.any()) vh::viol(key("readview", rc), vh::cat(f.name, " rect (", x0, ",", y0, ")+", dx, "x", dy, ": ", d.str()));
+        long oc = outside_changes(arena, pristine, ox, oy, dx, dy);
+        if (oc) vh::viol(key("readview-wrote-outside", rc), vh::cat(f.name, " rect (", x0, ",", y0, ")+", dx, "x", dy, ": ", oc, " arena pixels outside the destination view changed"));
     }
     void toosmall() {
         Img A; if (!full(A)) return;
@@ -395,7 +410,7 @@ struct checks {
         case 0: subrect(sub / 4, sub % 4); break;
         case 1: convert(); break;
         case 2: scanline(); break;
-        case 3: readview(); break;
+        case 3: readview(sub); break;
         case 4: anyimage(); break;
         case 5: devices(); break;
         case 6: info(); break;
@@ -419,7 +434,9 @@ static std::string written(View const& v, Info const& info) {
     gil::write_view(ss, v, info);
     return ss.str();
 }
-template <class Img> static Img seeded_image(int w, int h, uint64_t seed) { Img im(w, h); cio::fill_view(gil::view(im), seed, 0); return im; }
+// contents of generated files depend on VERIF_SEED (fs) and on a per-file constant
+static uint64_t fs(uint64_t k) { return vh::mix(vh::seed(), k); }
+template <class Img> static Img seeded_image(int w, int h, uint64_t seed) { Img im(w, h); cio::fill_view(gil::view(im), fs(seed), 0); return im; }
 // small sizes for which every sub-rectangle is enumerated, and two larger ones with odd row residues
 static const int SMALL[][2] = { { 8, 8 }, { 5, 3 }, { 1, 1 }, { 3, 7 }, { 1, 6 }, { 7, 1 } };
 static const int LARGE[][2] = { { 33, 17 }, { 18, 9 } };
@@ -452,20 +469,20 @@ static std::string bmp_topdown(std::string b) {
 }
 static void build_files() {
     struct { const char* file; const char* variant; int kind; } fx[] = {
-        { "g01bw.bmp", "pal1", K_RGBA8_SCAN_RGBA }, { "g01wb.bmp", "pal1", K_RGBA8_SCAN_RGBA }, { "g01bg.bmp", "pal1", K_RGBA8_SCAN_RGBA }, { "g01p1.bmp", "pal1-1entry", K_RGBA8_SCAN_RGBA },
-        { "g04.bmp", "pal4", K_RGBA8_SCAN_RGBA }, { "g04p4.bmp", "pal4-4entries", K_RGBA8_SCAN_RGBA }, { "g04rle.bmp", "rle4", K_RGB8_NOSCAN },
+        { "g01bw.bmp", "pal1", K_RGBA8_SCAN_RGBA }, { "g01wb.bmp", "pal1", K_RGBA8_SCAN_RGBA }, { "g01bg.bmp", "pal1", K_RGBA8_SCAN_RGBA }, { "g01p1.bmp", "pal1", K_RGBA8_SCAN_RGBA },
+        { "g04.bmp", "pal4", K_RGBA8_SCAN_RGBA }, { "g04p4.bmp", "pal4", K_RGBA8_SCAN_RGBA }, { "g04rle.bmp", "rle4", K_RGB8_NOSCAN },
         { "g08.bmp", "pal8", K_RGBA8_SCAN_RGBA }, { "g08p256.bmp", "pal8", K_RGBA8_SCAN_RGBA }, { "g08pi256.bmp", "pal8", K_RGBA8_SCAN_RGBA }, { "g08pi64.bmp", "pal8", K_RGBA8_SCAN_RGBA },
-        { "g08res22.bmp", "pal8", K_RGBA8_SCAN_RGBA }, { "g08res11.bmp", "pal8", K_RGBA8_SCAN_RGBA }, { "g08res21.bmp", "pal8", K_RGBA8_SCAN_RGBA }, { "g08s0.bmp", "pal8-size0", K_RGBA8_SCAN_RGBA },
-        { "g08offs.bmp", "pal8-offset", K_RGBA8_SCAN_RGBA }, { "g08w126.bmp", "pal8-w126", K_RGBA8_SCAN_RGBA }, { "g08w125.bmp", "pal8-w125", K_RGBA8_SCAN_RGBA }, { "g08w124.bmp", "pal8-w124", K_RGBA8_SCAN_RGBA },
-        { "g08p64.bmp", "pal8-64entries", K_RGBA8_SCAN_RGBA }, { "g08os2.bmp", "os2-pal8", K_RGB8_SCAN_RGBA }, { "g08rle.bmp", "rle8", K_RGB8_NOSCAN },
+        { "g08res22.bmp", "pal8", K_RGBA8_SCAN_RGBA }, { "g08res11.bmp", "pal8", K_RGBA8_SCAN_RGBA }, { "g08res21.bmp", "pal8", K_RGBA8_SCAN_RGBA }, { "g08s0.bmp", "pal8", K_RGBA8_SCAN_RGBA },
+        { "g08offs.bmp", "pal8", K_RGBA8_SCAN_RGBA }, { "g08w126.bmp", "pal8", K_RGBA8_SCAN_RGBA }, { "g08w125.bmp", "pal8", K_RGBA8_SCAN_RGBA }, { "g08w124.bmp", "pal8", K_RGBA8_SCAN_RGBA },
+        { "g08p64.bmp", "pal8", K_RGBA8_SCAN_RGBA }, { "g08os2.bmp", "os2-pal8", K_RGB8_SCAN_RGBA }, { "g08rle.bmp", "rle8", K_RGB8_NOSCAN },
         { "g16def555.bmp", "rgb555", K_RGB8_SCAN_RGB }, { "g16bf555.bmp", "bitfield555", K_RGB8_SCAN_RGB }, { "g16bf565.bmp", "bitfield565", K_RGB8_SCAN_RGB },
         { "g24.bmp", "rgb24", K_RGB8_SCAN_BGR }, { "g32def.bmp", "rgb32", K_RGBA8_SCAN_BGRA }, { "g32bf.bmp", "bitfield32", K_RGBA8_SCAN_BGRA } };
     for (auto& x : fx) add_fixture("bmp", x.file, x.variant, x.kind);
     gil::image_write_info<gil::bmp_tag> info;
     int n = 0;
     for (auto& s : SMALL) {
-        add("written-rgb24-small", vh::cat("written:rgb8 ", s[0], "x", s[1]), written(gil::const_view(seeded_image<gil::rgb8_image_t>(s[0], s[1], 100 + n)), info), K_RGB8_SCAN_BGR);
-        add("written-rgb32-small", vh::cat("written:rgba8 ", s[0], "x", s[1]), written(gil::const_view(seeded_image<gil::rgba8_image_t>(s[0], s[1], 200 + n)), info), K_RGBA8_SCAN_BGRA);
+        add("written-rgb24", vh::cat("written:rgb8 ", s[0], "x", s[1]), written(gil::const_view(seeded_image<gil::rgb8_image_t>(s[0], s[1], 100 + n)), info), K_RGB8_SCAN_BGR);
+        add("written-rgb32", vh::cat("written:rgba8 ", s[0], "x", s[1]), written(gil::const_view(seeded_image<gil::rgba8_image_t>(s[0], s[1], 200 + n)), info), K_RGBA8_SCAN_BGRA);
         ++n;
     }
     for (auto& s : LARGE) {
@@ -476,7 +493,7 @@ static void build_files() {
         add("topdown-rgb24", vh::cat("crafted:top-down rgb8 ", s[0], "x", s[1]), bmp_topdown(b24), K_RGB8_SCAN_BGR);
         ++n;
     }
-    { std::string b = written(gil::const_view(seeded_image<gil::rgb8_image_t>(5, 4, 77)), info); add("topdown-rgb24-small", "crafted:top-down rgb8 5x4", bmp_topdown(b), K_RGB8_SCAN_BGR); }
+    { std::string b = written(gil::const_view(seeded_image<gil::rgb8_image_t>(5, 4, 77)), info); add("topdown-rgb24", "crafted:top-down rgb8 5x4", bmp_topdown(b), K_RGB8_SCAN_BGR); }
     { file_t g; if (load_fixture("bmp", "g08.bmp", g)) add("topdown-pal8", "crafted:top-down g08.bmp", bmp_topdown(g.bytes), K_RGBA8_SCAN_RGBA); }
 }
 static void run_file(entry_t const& e, int path, int sub) {
@@ -499,7 +516,7 @@ static const char* FMT = "pnm";
 typedef gil::any_image<gil::gray8_image_t, gil::rgb8_image_t, gil::gray1_image_t> any_t;
 enum { K_GRAY8 = 0, K_RGB8, K_GRAY1 };
 static std::string pnm_ascii(int type, int w, int h, uint64_t seed, bool comments) {
-    vh::rng r(seed);
+    vh::rng r(fs(seed));
     std::ostringstream os;
     os << "P" << type << "\n";
     if (comments) os << "# crafted by the C13 monitor\n";
@@ -521,19 +538,19 @@ static void build_files() {
     gil::image_write_info<gil::pnm_tag> info;
     int n = 0;
     for (auto& s : SMALL) {
-        add("P5-bin-gray-small", vh::cat("written:gray8 ", s[0], "x", s[1]), written(gil::const_view(seeded_image<gil::gray8_image_t>(s[0], s[1], 100 + n)), info), K_GRAY8);
-        add("P6-bin-rgb-small", vh::cat("written:rgb8 ", s[0], "x", s[1]), written(gil::const_view(seeded_image<gil::rgb8_image_t>(s[0], s[1], 200 + n)), info), K_RGB8);
-        add("P1-ascii-mono-small", vh::cat("crafted:P1 ", s[0], "x", s[1]), pnm_ascii(1, s[0], s[1], 300 + n, n & 1), K_GRAY8);
-        add("P2-ascii-gray-small", vh::cat("crafted:P2 ", s[0], "x", s[1]), pnm_ascii(2, s[0], s[1], 400 + n, n & 1), K_GRAY8);
-        add("P3-ascii-rgb-small", vh::cat("crafted:P3 ", s[0], "x", s[1]), pnm_ascii(3, s[0], s[1], 500 + n, n & 1), K_RGB8);
+        add("P5-bin-gray", vh::cat("written:gray8 ", s[0], "x", s[1]), written(gil::const_view(seeded_image<gil::gray8_image_t>(s[0], s[1], 100 + n)), info), K_GRAY8);
+        add("P6-bin-rgb", vh::cat("written:rgb8 ", s[0], "x", s[1]), written(gil::const_view(seeded_image<gil::rgb8_image_t>(s[0], s[1], 200 + n)), info), K_RGB8);
+        add("P1-ascii-mono", vh::cat("crafted:P1 ", s[0], "x", s[1]), pnm_ascii(1, s[0], s[1], 300 + n, n & 1), K_GRAY8);
+        add("P2-ascii-gray", vh::cat("crafted:P2 ", s[0], "x", s[1]), pnm_ascii(2, s[0], s[1], 400 + n, n & 1), K_GRAY8);
+        add("P3-ascii-rgb", vh::cat("crafted:P3 ", s[0], "x", s[1]), pnm_ascii(3, s[0], s[1], 500 + n, n & 1), K_RGB8);
         ++n;
     }
     // binary mono: the writer only handles widths that are multiples of 8 (C12 finding); 8x8 and 16x5, 24x3
-    { gil::gray1_image_t im(8, 8); cio::fill_view(gil::view(im), 901, 0); add("P4-bin-mono-small", "written:gray1 8x8", written(gil::view(im), info), K_GRAY1); }
-    { gil::gray1_image_t im(16, 5); cio::fill_view(gil::view(im), 902, 0); add("P4-bin-mono", "written:gray1 16x5", written(gil::view(im), info), K_GRAY1); }
+    { gil::gray1_image_t im(8, 8); cio::fill_view(gil::view(im), fs(901), 0); add("P4-bin-mono", "written:gray1 8x8", written(gil::view(im), info), K_GRAY1); }
+    { gil::gray1_image_t im(16, 5); cio::fill_view(gil::view(im), fs(902), 0); add("P4-bin-mono", "written:gray1 16x5", written(gil::view(im), info), K_GRAY1); }
     // crafted P4 with a width that is not a multiple of 8 (rows padded to whole bytes)
-    { std::string b = "P4\n11 6\n"; vh::rng r(903); for (int i = 0; i < 12; ++i) b.push_back((char)r.below(256)); add("P4-bin-mono-padded", "crafted:P4 11x6", b, K_GRAY1); }
-    { std::string b = "P4 5 7 "; vh::rng r(904); for (int i = 0; i < 7; ++i) b.push_back((char)r.below(256)); add("P4-bin-mono-padded-small", "crafted:P4 5x7", b, K_GRAY1); }
+    { std::string b = "P4\n11 6\n"; vh::rng r(fs(903)); for (int i = 0; i < 12; ++i) b.push_back((char)r.below(256)); add("P4-bin-mono-padded", "crafted:P4 11x6", b, K_GRAY1); }
+    { std::string b = "P4 5 7 "; vh::rng r(fs(904)); for (int i = 0; i < 7; ++i) b.push_back((char)r.below(256)); add("P4-bin-mono-padded", "crafted:P4 5x7", b, K_GRAY1); }
     for (auto& s : LARGE) {
         add("P6-bin-rgb", vh::cat("written:rgb8 ", s[0], "x", s[1]), written(gil::const_view(seeded_image<gil::rgb8_image_t>(s[0], s[1], 600 + n)), info), K_RGB8);
         add("P2-ascii-gray", vh::cat("crafted:P2 ", s[0], "x", s[1]), pnm_ascii(2, s[0], s[1], 700 + n, true), K_GRAY8);
@@ -567,8 +584,8 @@ static void build_files() {
     gil::image_write_info<gil::targa_tag> info;
     int n = 0;
     for (auto& s : SMALL) {
-        add("written-raw24-small", vh::cat("written:rgb8 ", s[0], "x", s[1]), written(gil::const_view(seeded_image<gil::rgb8_image_t>(s[0], s[1], 100 + n)), info), K_RGB8);
-        add("written-raw32-small", vh::cat("written:rgba8 ", s[0], "x", s[1]), written(gil::const_view(seeded_image<gil::rgba8_image_t>(s[0], s[1], 200 + n)), info), K_RGBA8);
+        add("written-raw24", vh::cat("written:rgb8 ", s[0], "x", s[1]), written(gil::const_view(seeded_image<gil::rgb8_image_t>(s[0], s[1], 100 + n)), info), K_RGB8);
+        add("written-raw32", vh::cat("written:rgba8 ", s[0], "x", s[1]), written(gil::const_view(seeded_image<gil::rgba8_image_t>(s[0], s[1], 200 + n)), info), K_RGBA8);
         ++n;
     }
     for (auto& s : LARGE) {
@@ -602,7 +619,7 @@ static std::string png_craft(int w, int h, int color_type, int depth, bool inter
     if (setjmp(png_jmpbuf(ps))) vh::fatal_monitor("harness", "libpng failed while crafting a file");
     png_set_write_fn(ps, &m, &png_mem_write, &png_mem_flush);
     png_set_IHDR(ps, pi, w, h, depth, color_type, interlaced ? PNG_INTERLACE_ADAM7 : PNG_INTERLACE_NONE, PNG_COMPRESSION_TYPE_DEFAULT, PNG_FILTER_TYPE_DEFAULT);
-    vh::rng r(seed);
+    vh::rng r(fs(seed));
     png_color pal[256];
     if (color_type == PNG_COLOR_TYPE_PALETTE) {
         int n = 1 << depth;
@@ -635,9 +652,9 @@ static void build_files() {
     gil::image_write_info<gil::png_tag> info;
     int n = 0;
     for (auto& s : SMALL) {
-        add("gray8-small", vh::cat("written:gray8 ", s[0], "x", s[1]), written(gil::const_view(seeded_image<gil::gray8_image_t>(s[0], s[1], 100 + n)), info), K_GRAY8);
-        add("rgb8-small", vh::cat("written:rgb8 ", s[0], "x", s[1]), written(gil::const_view(seeded_image<gil::rgb8_image_t>(s[0], s[1], 200 + n)), info), K_RGB8);
-        add("rgba8-small", vh::cat("written:rgba8 ", s[0], "x", s[1]), written(gil::const_view(seeded_image<gil::rgba8_image_t>(s[0], s[1], 300 + n)), info), K_RGBA8);
+        add("gray8", vh::cat("written:gray8 ", s[0], "x", s[1]), written(gil::const_view(seeded_image<gil::gray8_image_t>(s[0], s[1], 100 + n)), info), K_GRAY8);
+        add("rgb8", vh::cat("written:rgb8 ", s[0], "x", s[1]), written(gil::const_view(seeded_image<gil::rgb8_image_t>(s[0], s[1], 200 + n)), info), K_RGB8);
+        add("rgba8", vh::cat("written:rgba8 ", s[0], "x", s[1]), written(gil::const_view(seeded_image<gil::rgba8_image_t>(s[0], s[1], 300 + n)), info), K_RGBA8);
         ++n;
     }
     for (auto& s : LARGE) {
@@ -647,12 +664,12 @@ static void build_files() {
         ++n;
     }
     add("interlaced-rgb8", "crafted:adam7 rgb8 19x11", png_craft(19, 11, PNG_COLOR_TYPE_RGB, 8, true, 701), K_RGB8_NOSCAN);
-    add("interlaced-rgb8-small", "crafted:adam7 rgb8 7x6", png_craft(7, 6, PNG_COLOR_TYPE_RGB, 8, true, 702), K_RGB8_NOSCAN);
+    add("interlaced-rgb8", "crafted:adam7 rgb8 7x6", png_craft(7, 6, PNG_COLOR_TYPE_RGB, 8, true, 702), K_RGB8_NOSCAN);
     add("interlaced-gray8", "crafted:adam7 gray8 9x17", png_craft(9, 17, PNG_COLOR_TYPE_GRAY, 8, true, 703), K_GRAY8_NOSCAN);
-    add("interlaced-rgba8-small", "crafted:adam7 rgba8 8x8", png_craft(8, 8, PNG_COLOR_TYPE_RGB_ALPHA, 8, true, 704), K_RGBA8_NOSCAN);
+    add("interlaced-rgba8", "crafted:adam7 rgba8 8x8", png_craft(8, 8, PNG_COLOR_TYPE_RGB_ALPHA, 8, true, 704), K_RGBA8_NOSCAN);
     add("pal8", "crafted:palette8 21x10", png_craft(21, 10, PNG_COLOR_TYPE_PALETTE, 8, false, 705), K_RGB8);
     add("pal4", "crafted:palette4 13x9", png_craft(13, 9, PNG_COLOR_TYPE_PALETTE, 4, false, 706), K_RGB8);
-    add("pal1-small", "crafted:palette1 7x5", png_craft(7, 5, PNG_COLOR_TYPE_PALETTE, 1, false, 707), K_RGB8);
+    add("pal1", "crafted:palette1 7x5", png_craft(7, 5, PNG_COLOR_TYPE_PALETTE, 1, false, 707), K_RGB8);
     add("interlaced-pal4", "crafted:adam7 palette4 13x9", png_craft(13, 9, PNG_COLOR_TYPE_PALETTE, 4, true, 708), K_RGB8_NOSCAN);
 }
 static void run_file(entry_t const& e, int path, int sub) {
@@ -675,21 +692,21 @@ static void build_files() {
     gil::image_write_info<gil::png_tag> info;
     int n = 0;
     for (auto& s : SMALL) {
-        add("gray16-small", vh::cat("written:gray16 ", s[0], "x", s[1]), written(gil::const_view(seeded_image<gil::gray16_image_t>(s[0], s[1], 100 + n)), info), K_GRAY16);
-        add("rgb16-small", vh::cat("written:rgb16 ", s[0], "x", s[1]), written(gil::const_view(seeded_image<gil::rgb16_image_t>(s[0], s[1], 200 + n)), info), K_RGB16);
-        add("rgba16-small", vh::cat("written:rgba16 ", s[0], "x", s[1]), written(gil::const_view(seeded_image<gil::rgba16_image_t>(s[0], s[1], 300 + n)), info), K_RGBA16);
-        { gil::gray1_image_t im(s[0], s[1]); cio::fill_view(gil::view(im), 400 + n, 0); add("gray1-small", vh::cat("written:gray1 ", s[0], "x", s[1]), written(gil::view(im), info), K_GRAY1); }
-        { gil::gray2_image_t im(s[0], s[1]); cio::fill_view(gil::view(im), 500 + n, 0); add("gray2-small", vh::cat("written:gray2 ", s[0], "x", s[1]), written(gil::view(im), info), K_GRAY2); }
-        { gil::gray4_image_t im(s[0], s[1]); cio::fill_view(gil::view(im), 600 + n, 0); add("gray4-small", vh::cat("written:gray4 ", s[0], "x", s[1]), written(gil::view(im), info), K_GRAY4); }
+        add("gray16", vh::cat("written:gray16 ", s[0], "x", s[1]), written(gil::const_view(seeded_image<gil::gray16_image_t>(s[0], s[1], 100 + n)), info), K_GRAY16);
+        add("rgb16", vh::cat("written:rgb16 ", s[0], "x", s[1]), written(gil::const_view(seeded_image<gil::rgb16_image_t>(s[0], s[1], 200 + n)), info), K_RGB16);
+        add("rgba16", vh::cat("written:rgba16 ", s[0], "x", s[1]), written(gil::const_view(seeded_image<gil::rgba16_image_t>(s[0], s[1], 300 + n)), info), K_RGBA16);
+        { gil::gray1_image_t im(s[0], s[1]); cio::fill_view(gil::view(im), fs(400 + n), 0); add("gray1", vh::cat("written:gray1 ", s[0], "x", s[1]), written(gil::view(im), info), K_GRAY1); }
+        { gil::gray2_image_t im(s[0], s[1]); cio::fill_view(gil::view(im), fs(500 + n), 0); add("gray2", vh::cat("written:gray2 ", s[0], "x", s[1]), written(gil::view(im), info), K_GRAY2); }
+        { gil::gray4_image_t im(s[0], s[1]); cio::fill_view(gil::view(im), fs(600 + n), 0); add("gray4", vh::cat("written:gray4 ", s[0], "x", s[1]), written(gil::view(im), info), K_GRAY4); }
         ++n;
     }
     for (auto& s : LARGE) {
         add("gray16", vh::cat("written:gray16 ", s[0], "x", s[1]), written(gil::const_view(seeded_image<gil::gray16_image_t>(s[0], s[1], 700 + n)), info), K_GRAY16);
         add("rgb16", vh::cat("written:rgb16 ", s[0], "x", s[1]), written(gil::const_view(seeded_image<gil::rgb16_image_t>(s[0], s[1], 800 + n)), info), K_RGB16);
         add("rgba16", vh::cat("written:rgba16 ", s[0], "x", s[1]), written(gil::const_view(seeded_image<gil::rgba16_image_t>(s[0], s[1], 900 + n)), info), K_RGBA16);
-        { gil::gray1_image_t im(s[0], s[1]); cio::fill_view(gil::view(im), 1000 + n, 0); add("gray1", vh::cat("written:gray1 ", s[0], "x", s[1]), written(gil::view(im), info), K_GRAY1); }
-        { gil::gray2_image_t im(s[0], s[1]); cio::fill_view(gil::view(im), 1100 + n, 0); add("gray2", vh::cat("written:gray2 ", s[0], "x", s[1]), written(gil::view(im), info), K_GRAY2); }
-        { gil::gray4_image_t im(s[0], s[1]); cio::fill_view(gil::view(im), 1200 + n, 0); add("gray4", vh::cat("written:gray4 ", s[0], "x", s[1]), written(gil::view(im), info), K_GRAY4); }
+        { gil::gray1_image_t im(s[0], s[1]); cio::fill_view(gil::view(im), fs(1000 + n), 0); add("gray1", vh::cat("written:gray1 ", s[0], "x", s[1]), written(gil::view(im), info), K_GRAY1); }
+        { gil::gray2_image_t im(s[0], s[1]); cio::fill_view(gil::view(im), fs(1100 + n), 0); add("gray2", vh::cat("written:gray2 ", s[0], "x", s[1]), written(gil::view(im), info), K_GRAY2); }
+        { gil::gray4_image_t im(s[0], s[1]); cio::fill_view(gil::view(im), fs(1200 + n), 0); add("gray4", vh::cat("written:gray4 ", s[0], "x", s[1]), written(gil::view(im), info), K_GRAY4); }
         ++n;
     }
     add("interlaced-gray4", "crafted:adam7 gray4 13x9", png_craft(13, 9, PNG_COLOR_TYPE_GRAY, 4, true, 1301), K_GRAY4_NOSCAN);
@@ -721,9 +738,9 @@ static void build_files() {
     int n = 0;
     for (auto& s : SMALL) {
         gil::image_write_info<gil::jpeg_tag> info(90 + n);
-        add("written-gray-small", vh::cat("written:gray8 ", s[0], "x", s[1]), written(gil::const_view(seeded_image<gil::gray8_image_t>(s[0], s[1], 100 + n)), info), K_GRAY8);
-        add("written-ycc-small", vh::cat("written:rgb8 ", s[0], "x", s[1]), written(gil::const_view(seeded_image<gil::rgb8_image_t>(s[0], s[1], 200 + n)), info), K_RGB8);
-        add("written-cmyk-small", vh::cat("written:cmyk8 ", s[0], "x", s[1]), written(gil::const_view(seeded_image<gil::cmyk8_image_t>(s[0], s[1], 300 + n)), info), K_CMYK8);
+        add("written-gray", vh::cat("written:gray8 ", s[0], "x", s[1]), written(gil::const_view(seeded_image<gil::gray8_image_t>(s[0], s[1], 100 + n)), info), K_GRAY8);
+        add("written-ycc", vh::cat("written:rgb8 ", s[0], "x", s[1]), written(gil::const_view(seeded_image<gil::rgb8_image_t>(s[0], s[1], 200 + n)), info), K_RGB8);
+        add("written-cmyk", vh::cat("written:cmyk8 ", s[0], "x", s[1]), written(gil::const_view(seeded_image<gil::cmyk8_image_t>(s[0], s[1], 300 + n)), info), K_CMYK8);
         ++n;
     }
     for (auto& s : LARGE) {
@@ -759,12 +776,12 @@ template <class Img> static void add_tiff_type(const char* type, int kind_scan, 
         info._compression = c.compression; info._is_tiled = c.tiled; info._tile_width = info._tile_length = 16;
         for (auto& s : SMALL) {
             if (&c != &TCFGS[0] && &c != &TCFGS[3] && (s[0] != 8 && s[0] != 5)) { ++n; continue; }   // all small sizes uncompressed; two sizes otherwise
-            Img im(s[0], s[1]); cio::fill_view(gil::view(im), seed0 + n, 0);
-            add(vh::cat(type, "-", c.name, "-small"), vh::cat("written:", type, " ", c.name, " ", s[0], "x", s[1]), written(gil::view(im), info), c.scan ? kind_scan : kind_noscan);
+            Img im(s[0], s[1]); cio::fill_view(gil::view(im), fs(seed0 + n), 0);
+            add(vh::cat(type, "-", c.name, ""), vh::cat("written:", type, " ", c.name, " ", s[0], "x", s[1]), written(gil::view(im), info), c.scan ? kind_scan : kind_noscan);
             ++n;
         }
         for (auto& s : LARGE) {
-            Img im(s[0], s[1]); cio::fill_view(gil::view(im), seed0 + n, 0);
+            Img im(s[0], s[1]); cio::fill_view(gil::view(im), fs(seed0 + n), 0);
             add(vh::cat(type, "-", c.name), vh::cat("written:", type, " ", c.name, " ", s[0], "x", s[1]), written(gil::view(im), info), c.scan ? kind_scan : kind_noscan);
             ++n;
         }
@@ -820,11 +837,12 @@ int main(int argc, char** argv) {
         for (int p = 0; p < NPATHS; ++p) {
             entry_t const& e = files()[i];
             std::string id = e.f.name.substr(e.f.name.find(':') + 1);
-            for (int sub = 0; sub < (p == 0 ? 16 : 1); ++sub) {
+            for (int sub = 0; sub < (p == 0 ? 16 : p == 3 ? 4 : 1); ++sub) {
                 // the case class carries format, path, file variant and (sub-rectangles) the rectangle class, so
                 // that a fatal report is attributed as precisely as an oracle mismatch
                 std::string cls = vh::cat("c13.", FMT, ".", PATHS[p], ".", e.f.variant);
                 if (p == 0) cls += vh::cat(".", XCLS[sub / 4], "-", YCLS[sub % 4]);
+                if (p == 3) cls += vh::cat(".", sub == 0 ? "whole" : sub == 1 ? "xoff-toright-yoff-tobottom" : sub == 2 ? "x0-shortw-y0-shorth" : "xoff-shortw-yoff-shorth");
                 if (!vh::begin_case(cls, id)) continue;
                 run_file(e, p, sub);
                 vh::obs(vh::cat("path.", PATHS[p]));
